@@ -57,7 +57,7 @@ def run(tier, seed, replay=None):
     quick = tier == "quick"
     scale = 1 if quick else 25
     plan = {"blas": 40 * scale, "blas-large": 100 * scale, "lapack": 5 * scale, "lapack-large": 50 * scale, "base-large": 50 * scale,
-            "dense": 12 * scale, "sparse": 6 * scale, "import": 10 * scale}
+            "dense": 12 * scale, "sparse": 6 * scale, "import": 10 * scale, "shapes": 60 * scale, "misc": 24 * scale}
     ck.rule = ("guard build; per worker x 16: " + ", ".join("%s %d" % kv for kv in plan.items()) + " generated calls / programs; BLAS calls judged by TLC "
                "(accept/reject = footprint, arguments near 2^31 clamped in the model); distinct = distinct (family, routine / operation, outcome) classes")
     ck.trusted = ["TLC (Blas.tla via MC_BlasClamp)", "build/guard_alloc.h (mmap allocator with guard pages, included at compile time in base, blas, lapack, misc_solvers)",
@@ -84,6 +84,12 @@ def run(tier, seed, replay=None):
         for c, r in zip(d["cases"], d["results"]):
             ck.evaluations += 1
             stats[fam] = stats.get(fam, 0) + 1
+            if "crash" in r and fam == "misc" and not c["valid"]:
+                # cvxopt.misc_solvers validates nothing (see known_findings.json): one signature per function
+                ck.violation("memory|misc_solvers|%s|unchecked-arguments" % c["f"], "guard build: misc_solvers.%s with a vector shorter than dims requires died (%s)" % (c["f"], r["crash"]),
+                             {"family": fam, "seed": sd, "case": c, "crash": r["crash"]})
+                ck.nontrivial("misc|%s|invalid|crash" % c["f"])
+                continue
             if "crash" in r:
                 what = c.get("f") if isinstance(c, dict) and "f" in c else fam
                 desc = (c17.describe(c) if fam.startswith("blas") else json.dumps(c)[:400])
